@@ -48,7 +48,7 @@ Record run := mkRun {
   r_cands : list cause;       (* injected failures that have not surfaced *)
   r_stop : bool;              (* a graceful stop is armed *)
   r_shutreq : bool;           (* v1: the armed stop carries ErrGracefulShutdown *)
-  r_intent : bool;            (* v2: rp.intentionalStop *)
+  r_intent : bool;            (* v2: rp.intentionalStop; v1 (repaired 742a56e): startErr != nil, the Running write of this run failed *)
   r_gshut : bool;             (* v1: run-local isGracefulShutdown (a node returned ErrGracefulShutdown) *)
   r_started : bool;           (* v1: cleanup goroutine registered; v2: startupDone closed *)
   r_res : option res }.       (* tomb dead: what Wait returns *)
@@ -84,9 +84,14 @@ Record fixes := mkFixes {
   f_proc_open : bool;      (* 7f15ba5  v2 ProcessorTask.Open tears the processor down when its Open fails *)
   f_dlq_open : bool;       (* 6946e0c  v2 Worker.Open's rollback tears the source down *)
   f_force_intent : bool;   (* 9382932  v2 force stop also sets intentionalStop *)
-  f_sync_kill : bool }.    (* 2f2ec4f  v1 node goroutine Kills the tomb before its deferred nodesWg.Done() *)
-Definition repaired : fixes := mkFixes true true true true true.
-Definition shipped : fixes := mkFixes false false false false false.
+  f_sync_kill : bool;      (* 2f2ec4f  v1 node goroutine Kills the tomb before its deferred nodesWg.Done() *)
+  f_stfail : bool }.       (* 742a56e (v1) / eff71a0 (v2)  a failed store write of UpdateStatus(StatusRunning) Kills the
+                              run's tomb with a fatal error; v1 registers the cleanup goroutine all the same and does not
+                              notify the failure handlers a second time *)
+Definition repaired : fixes := mkFixes true true true true true true.
+Definition shipped : fixes := mkFixes false false false false false false.
+(* the code as it stood before 742a56e / eff71a0 (used by the _failed_write_..._shipped_refuted witnesses) *)
+Definition repaired_before_stfail : fixes := mkFixes true true true true true false.
 
 Record cfg := mkCfg { c_engine : engine; c_proc : bool; c_wraps : bool (* force Kill wraps FatalError *); c_fix : fixes;
                       c_stfail : bool (* the store write of UpdateStatus(StatusRunning) may fail (an action of the model) *) }.
@@ -310,12 +315,39 @@ Definition start_step (c : cfg) (s : st) (pc : spc) (choice : nat) : sres :=
   | SPublish i => SNext (with_map s (Some i)) (SStatus i) LTau
   | SStatus i =>
       let s1 := with_cur (with_status s Running) (Some i) in
+      if c_stfail c && f_stfail (c_fix c)
+         && match get_run s i with Some r => r_started r | None => false end then
+        (* repaired: the Running write of run i has failed (below); Start does not return before the run it Killed
+           has been finalized by its own cleanup goroutine (rp.t.Wait()) *)
+        match get_run s i with
+        | Some r => match r_res r with Some _ => SFin s RetErr LTau | None => SStuck end
+        | None => SStuck
+        end
+      else
       if c_stfail c && negb (Nat.eqb choice 0) then
         (* UpdateStatus(StatusRunning) fails in the store AFTER the in-memory status was set (pipeline.Service
            mutates the instance first and does not roll back): Start returns the error.
            v1: the publication is rolled back (compare-and-delete) and runPipeline returns BEFORE the cleanup
                goroutine is registered: the node goroutines of run i keep running, nothing owns them.
            v2: startupDone is closed, the run stays live and published. *)
+        if f_stfail (c_fix c) then
+          (* repaired (742a56e / eff71a0 + the wait): the run's tomb is Killed with a fatal error (first Kill wins),
+             the run is finalized by its own cleanup goroutine and Start waits for that (this program counter is
+             kept; [r_started], false at this point of an ordinary Start, marks that the write has failed).
+             v1: publication rolled back, Kill, cleanup goroutine registered all the same; [r_intent] (unused by v1
+                 otherwise) marks startErr != nil: that cleanup does not call the failure handlers.
+             v2: Kill, startupDone closed; the run stays published until its cleanup has run. *)
+          match get_run s1 i with
+          | None => SStuck
+          | Some r =>
+              let rk := match r_phase r with PDead => r | _ => rw_kill r CaFatal end in
+              match c_engine c with
+              | V1 => let s2 := if onat_eqb (s_map s1) (Some i) then with_map s1 None else s1 in
+                      SNext (set_clean (upd_run s2 i (rw_intent (rw_started rk))) i (Some CWait)) (SStatus i) (LStatus Running)
+              | V2 => SNext (upd_run s1 i (rw_started rk)) (SStatus i) (LStatus Running)
+              end
+          end
+        else
         match c_engine c with
         | V1 => SFin (if onat_eqb (s_map s1) (Some i) then with_map s1 None else s1) RetErr (LStatus Running)
         | V2 => match get_run s1 i with
@@ -405,7 +437,13 @@ Definition clean_step (c : cfg) (s : st) (i : nat) (choice : nat) : option (st *
           | V2 => goto (if f_cad (c_fix c) && negb (onat_eqb (s_map s) (Some i)) then s else with_map s None) (CTail3 e) LTau
           end
       | CTail3 e =>
-          Some (finish_clean s i r e, match e with ResNil => LTau | _ => LNotify e end)
+          (* v1, repaired: a run whose Start failed on the Running write (startErr != nil, marked by r_intent) was
+             reported to the caller of Start; its cleanup does not call the failure handlers *)
+          Some (finish_clean s i r e,
+                match e with
+                | ResNil => LTau
+                | _ => if c_stfail c && is_v1 c && f_stfail (c_fix c) && r_intent r then LTau else LNotify e
+                end)
       end
   | _, _ => None
   end.
@@ -636,6 +674,8 @@ Definition cfg_v2_shipped (proc : bool) : cfg := mkCfg V2 proc true shipped fals
 (* with failing status writes enabled *)
 Definition cfg_v1_io (proc : bool) : cfg := mkCfg V1 proc true repaired true.
 Definition cfg_v2_io (proc : bool) : cfg := mkCfg V2 proc true repaired true.
+Definition cfg_v1_io_shipped (proc : bool) : cfg := mkCfg V1 proc true repaired_before_stfail true.
+Definition cfg_v2_io_shipped (proc : bool) : cfg := mkCfg V2 proc true repaired_before_stfail true.
 
 (* labels produced by a list of actions (None when an action is not enabled) *)
 Fixpoint trace (c : cfg) (s : st) (l : list act) : option (list label * st) :=
